@@ -100,7 +100,7 @@ Fixpoint represent (s : schema) : expr :=
   | SDatetime v => opt_meth v (EBase KdDatetime) MCall (fun p => ELit (VDatetime (fst p) (snd p)))
   | SDate v => opt_meth v (EBase KdDate) MCall (fun x => ELit x)
   | SAlias _ _ => EOpaque
-  | SCustom _ => EOpaque
+  | SCustom t => represent t     (* the forwarding custom type: __represent__ hands the visitor to the wrapped schema *)
   end.
 
 (* ---- evaluation: Python evaluates the receiver, then the arguments left to right ---- *)
